@@ -517,4 +517,145 @@ theorem enrich_no_panic (r : Req) (H : Hdr) (hne : ∀ kv ∈ H, kv.2 ≠ []) : 
         · exact ih r hrest
       · exact ih _ hrest
 
+/-! ## the request each format builds, through lookups -/
+
+theorem lastOf_getLast? (l : List Str) :
+    lastOf l = match l.getLast? with
+      | some v => [v]
+      | none => [] := by
+  induction l with
+  | nil => simp [lastOf]
+  | cons v t ih =>
+    rw [lastOf_cons]
+    cases t with
+    | nil => simp
+    | cons w t' => simp only [reduceCtorEq, if_false]; rw [ih]; simp [List.getLast?_cons_cons]
+
+theorem hget_nil (n : Str) : hget [] n = none := rfl
+
+/-- header lookups of the request each format builds, in terms of the lines and the option -/
+theorem header_of_buildReq (f : Format) (conf lines : List (Str × Str)) (e : Entry) (r : Req)
+    (h : buildReq f (confHdr conf) lines e = some r) (n : Str) (hn : n ≠ hostKey) :
+    hget r.header n = expHeader f conf (seenLines f lines) n := by
+  have wc := WF_confHdr conf
+  have hcf := hget_confHdr conf n
+  cases f with
+  | uri =>
+    simp only [buildReq, buildAmmo] at h
+    have w := WF_mergeUri _ _ (WF_foldl_hset [] WF_nil lines) wc
+    rw [enrich_header _ _ _ w.canonKeys h n hn]
+    simp only [newRequest, hget_nil, hget_mergeUri _ _ wc.canonKeys, hget_commonOf, hcf, expHeader, fileVals, seenLines]
+    generalize lastOf (valsOf lines n) = l
+    cases l <;> rfl
+  | uripost =>
+    simp only [buildReq, buildAmmo] at h
+    have w := WF_mergeUri _ _ (WF_foldl_hset [] WF_nil lines) wc
+    rw [enrich_header _ _ _ w.canonKeys h n hn]
+    simp only [newRequest, hget_nil, hget_mergeUri _ _ wc.canonKeys, hget_commonOf, hcf, expHeader, fileVals, seenLines]
+    generalize lastOf (valsOf lines n) = l
+    cases l <;> rfl
+  | jsonline =>
+    simp only [buildReq, buildAmmo, mergeJson_eq] at h
+    have w := WF_foldl_hset _ wc lines
+    rw [enrich_header _ _ _ w.canonKeys h n hn]
+    simp only [newRequest, hget_nil, hget_commonOf, hcf, expHeader, fileVals, seenLines]
+    generalize lastOf (valsOf lines n) = l
+    cases l <;> rfl
+  | jsonarr =>
+    simp only [buildReq, buildAmmo, mergeJson_eq] at h
+    have w := WF_foldl_hset _ wc lines
+    rw [enrich_header _ _ _ w.canonKeys h n hn]
+    simp only [newRequest, hget_nil, hget_commonOf, hcf, expHeader, fileVals, seenLines]
+    generalize lastOf (valsOf lines n) = l
+    cases l <;> rfl
+  | raw =>
+    simp only [buildReq] at h
+    rw [enrich_header _ _ _ wc.canonKeys h n hn]
+    simp only [readRequest, hget_hdel_ne _ _ _ hn, hget_foldl_hadd, hget_nil, hcf, expHeader, fileVals, seenLines,
+      Option.getD_none, List.nil_append]
+    generalize valsOf (List.map (fun kv => (kv.fst, trimHTTP kv.snd)) lines) n = l
+    cases l <;> rfl
+
+/-- `req.Host` of the request each format builds -/
+theorem host_of_buildReq (f : Format) (conf lines : List (Str × Str)) (e : Entry) (r : Req)
+    (h : buildReq f (confHdr conf) lines e = some r) :
+    r.host = if urlHost f e ≠ [] then urlHost f e else
+      match fileHost f (seenLines f lines) with
+      | some v => if v ≠ [] ∨ f ≠ .raw then v else
+          (match valsOf conf hostKey with
+            | c :: _ => c
+            | [] => [])
+      | none => match valsOf conf hostKey with
+        | c :: _ => c
+        | [] => [] := by
+  have wc := WF_confHdr conf
+  have hcf := hget_confHdr conf hostKey
+  cases f with
+  | uri =>
+    simp only [buildReq, buildAmmo] at h
+    have w := WF_mergeUri _ _ (WF_foldl_hset [] WF_nil lines) wc
+    rw [enrich_host _ _ _ w (hget_nil _) h]
+    simp only [newRequest, hget_mergeUri _ _ wc.canonKeys, hget_commonOf, hget_nil, hcf, urlHost, urlOf, fileHost,
+      seenLines, lastOf_getLast?]
+    by_cases hu : (splitURL e.uri).1 = []
+    · cases hg : (valsOf lines hostKey).getLast? with
+      | some v => simp [hu]
+      | none => cases hc : valsOf conf hostKey <;> simp [hu]
+    · simp [hu]
+  | uripost =>
+    simp only [buildReq, buildAmmo] at h
+    have w := WF_mergeUri _ _ (WF_foldl_hset [] WF_nil lines) wc
+    rw [enrich_host _ _ _ w (hget_nil _) h]
+    simp only [newRequest, hget_mergeUri _ _ wc.canonKeys, hget_commonOf, hget_nil, hcf, urlHost, urlOf, fileHost,
+      seenLines, lastOf_getLast?]
+    by_cases hu : (splitURL e.uri).1 = []
+    · cases hg : (valsOf lines hostKey).getLast? with
+      | some v => simp [hu]
+      | none => cases hc : valsOf conf hostKey <;> simp [hu]
+    · simp [hu]
+  | jsonline =>
+    simp only [buildReq, buildAmmo, mergeJson_eq] at h
+    have w := WF_foldl_hset _ wc lines
+    rw [enrich_host _ _ _ w (hget_nil _) h]
+    simp only [newRequest, hget_commonOf, hcf, urlHost, urlOf, fileHost, seenLines, lastOf_getLast?]
+    by_cases hu : (splitURL (httpPfx ++ (e.host ++ e.uri))).1 = []
+    · cases hg : (valsOf lines hostKey).getLast? with
+      | some v => simp [hu]
+      | none => cases hc : valsOf conf hostKey <;> simp [hu]
+    · simp [hu]
+  | jsonarr =>
+    simp only [buildReq, buildAmmo, mergeJson_eq] at h
+    have w := WF_foldl_hset _ wc lines
+    rw [enrich_host _ _ _ w (hget_nil _) h]
+    simp only [newRequest, hget_commonOf, hcf, urlHost, urlOf, fileHost, seenLines, lastOf_getLast?]
+    by_cases hu : (splitURL (httpPfx ++ (e.host ++ e.uri))).1 = []
+    · cases hg : (valsOf lines hostKey).getLast? with
+      | some v => simp [hu]
+      | none => cases hc : valsOf conf hostKey <;> simp [hu]
+    · simp [hu]
+  | raw =>
+    simp only [buildReq] at h
+    rw [enrich_host _ _ _ wc (by simp [readRequest, hget_hdel_self]) h]
+    simp only [readRequest, hget_foldl_hadd, hget_nil, hcf, urlHost, urlOf, fileHost, seenLines, Option.getD_none,
+      List.nil_append]
+    generalize valsOf (List.map (fun kv => (kv.fst, trimHTTP kv.snd)) lines) hostKey = l
+    by_cases hu : (splitURL e.uri).1 = []
+    · cases l with
+      | nil => simp [hu]; cases valsOf conf hostKey <;> rfl
+      | cons v vs =>
+        by_cases hv : v = []
+        · simp [hu, hv]; cases valsOf conf hostKey <;> rfl
+        · simp [hu, hv]
+    · cases l <;> simp [hu]
+
+theorem buildReq_total (f : Format) (conf lines : List (Str × Str)) (e : Entry) :
+    ∃ r, buildReq f (confHdr conf) lines e = some r := by
+  have wc := WF_confHdr conf
+  cases f with
+  | uri => exact enrich_no_panic _ _ (WF_mergeUri _ _ (WF_foldl_hset [] WF_nil lines) wc).nonempty
+  | uripost => exact enrich_no_panic _ _ (WF_mergeUri _ _ (WF_foldl_hset [] WF_nil lines) wc).nonempty
+  | jsonline => exact enrich_no_panic _ _ (WF_foldl_hset _ wc lines).nonempty
+  | jsonarr => exact enrich_no_panic _ _ (WF_foldl_hset _ wc lines).nonempty
+  | raw => exact enrich_no_panic _ _ wc.nonempty
+
 end Pandora.Proofs.C09
